@@ -322,7 +322,7 @@ def check(res, tier, replay=None):
             # the model: every interleaving of the generated step lists
             wit = model_races(res, prep, info, "c11")
             # the library: barrier stress
-            it = 250 if quick else 5000
+            it = 250 if quick else 2000
             # the model found a two-winner schedule for the generated list: try harder to make that race fire
             plan = [(w, m, (it * (10 if w in wit else 1)) if m >= 2 else 20)
                     for w in ("init", "fini") for m in (1, 2, 3, 4, 8)]
